@@ -470,7 +470,7 @@ def run(ctx: core.Ctx):
     ]
     ref_ids = [r[0] for r in REFS]
     plan = []
-    for cls_name in ("sandboxed", "immutable", "custom"):
+    for cls_name in ("sandboxed", "custom") if ctx.quick else ("sandboxed", "immutable", "custom"):
         for asy in (False, True):
             plan.append((cls_name, asy, False, ctx.quick is False))
     if not ctx.quick:
